@@ -45,13 +45,32 @@ def observe (op : Op) (o : Out) : Res :=
 counters read without a lock: `len`, and everything computed from it); their values are not
 compared in concurrent histories. -/
 def weakProbe (fl : Flavour) : Op → Bool
-  | .probe p _ =>
-    (fl.fam == .sb || fl.fam == .mb || fl.fam == .mu || fl.fam == .pu) &&
-    (p == .len || p == .isEmpty || p == .isFull || p == .isClosed)
+  | .probe p h =>
+    ((fl.fam == .sb || fl.fam == .mb || fl.fam == .mu || fl.fam == .pu) &&
+     (p == .len || p == .isEmpty || p == .isFull || p == .isClosed)) ||
+    -- oneshot `Receiver::is_closed` reads the state word and then `sender_count` (two loads, no lock):
+    -- with oneshot on the scheduler seam the two reads interleave with sends, and it can answer `true`
+    -- from a stale EMPTY/WRITING and a fresh count 0 while a value is SENT and pending
+    -- (step-level witness: `Fv.Props.OneshotB.receiver_is_closed_stale_true`). The sender-side probes
+    -- (`is_closed`, `is_sent`) are single loads and stay compared.
+    (fl.fam == .os && p == .isClosed && h.side == .rx)
+  | _ => false
+
+/-- oneshot `send` decides WHICH error a failed send reports from two separate loads (`receiver_dropped`,
+then the state word, then the CAS and a second look at `receiver_dropped`): when it overlaps the
+receiver's close / drop, or another sender's backtrack, the real code answers `Sent` where every atomic
+placement of the call would answer `Closed` (and vice versa). The value handed back IS compared; the
+kind of the error is not, in concurrent histories (sequential cases compare it exactly, and the
+step-level tie `fvdrv_oneshotb` checks the exact kind, load by load, on every interleaving). -/
+def osFailedSend (fl : Flavour) (op : Op) (r : Res) : Bool :=
+  match op with
+  | .snd .send _ _ => fl.fam == .os && r.tag == .sentAlready
   | _ => false
 
 def normRes (fl : Flavour) (op : Op) (r : Res) : Res :=
-  if weakProbe fl op ∧ r.tag = .ok then { r with val := .none } else r
+  if weakProbe fl op ∧ r.tag = .ok then { r with val := .none }
+  else if osFailedSend fl op r then { r with tag := .closed }
+  else r
 
 abbrev Ev := LinCore.Event Op Res
 abbrev History := List Ev
